@@ -26,7 +26,7 @@ RULE = ("cases = generated dyadic specifications forced to reuse one parameter n
         "distinct = structural signature; evaluations = template entries compared + value entries compared + agent-periods checked")
 ASSUMPTIONS = ["exact comparison on dyadic inputs"]
 FORCES = [["collide"], ["collide", "stoch"], ["collide", "aux"], ["collide", "constraint"], ["collide", "mixed"], ["collide", "stoch", "aux"], ["stoch"], None,
-          ["collide", "twin"], ["twin", "aux"], ["stoch", "iid"]]
+          ["collide", "twin"], ["twin", "aux"], ["stoch", "iid"], ["collide", "kwonly"], ["kwonly", "aux", "constraint"]]
 
 
 def cases(seed, tier):
